@@ -354,7 +354,20 @@ func doCheck(p *propCfg, tier string) int {
 	m := hlib.Result{Property: p.ID, Tier: tier, Outcomes: map[string]int64{}, Exhaustive: true,
 		Extra: map[string]interface{}{}, Sections: map[string]int64{}}
 	vio := map[string]*hlib.Violation{}
+	uniq := map[string][2]string{}
 	for _, r := range results {
+		if r != nil {
+			for k, v := range r.Uniques {
+				if o, ok := uniq[k]; ok && o[0] != v[0] {
+					if _, dup := vio[v[1]]; !dup {
+						raw, _ := json.Marshal(map[string]string{"key": k})
+						vio[v[1]] = &hlib.Violation{Sig: v[1], Detail: fmt.Sprintf("%s has the value %q in one worker process and %q in another", k, o[0], v[0]), Replay: raw, Count: 1}
+					}
+				} else if !ok {
+					uniq[k] = v
+				}
+			}
+		}
 		if r == nil {
 			m.Exhaustive = false
 			continue
